@@ -409,7 +409,7 @@ func (p *Prog) resolveRole(role string) (*ssa.Function, error) {
 			return nil, err
 		}
 		var c []*ssa.Function
-		for _, cal := range p.StaticCallees(call) {
+		for _, cal := range p.driverCallees(call) {
 			if cal == app || p.callsFn(cal, app) {
 				c = append(c, cal)
 			}
@@ -480,7 +480,7 @@ func (p *Prog) resolveRole(role string) (*ssa.Function, error) {
 		}
 		fnField := p.FuncFnField()
 		var c []*ssa.Function
-		Instrs(pl, func(in ssa.Instruction) {
+		p.plannerRegionInstrs(pl, func(in ssa.Instruction) {
 			st, ok := in.(*ssa.Store)
 			if !ok {
 				return
@@ -542,4 +542,65 @@ func (p *Prog) IsHashcodeCall(v ssa.Value) (*ssa.Call, bool) {
 		return cl, true
 	}
 	return nil, false
+}
+
+// plannerRegionInstrs visits the planner and the helper-like functions only it calls (role resolution cannot use
+// Region, which itself depends on the resolved roles).
+func (p *Prog) plannerRegionInstrs(pl *ssa.Function, fn func(ssa.Instruction)) {
+	seen := map[*ssa.Function]bool{pl: true}
+	work := []*ssa.Function{pl}
+	for len(work) > 0 {
+		f := work[len(work)-1]
+		work = work[:len(work)-1]
+		for _, g := range WithNested(f) {
+			Instrs(g, fn)
+			for _, ci := range Calls(g) {
+				cal := ci.Common().StaticCallee()
+				if cal == nil || seen[cal] {
+					continue
+				}
+				if caller, ok := p.helperLike(cal); ok && caller == pl {
+					seen[cal] = true
+					work = append(work, cal)
+				}
+			}
+		}
+	}
+}
+
+// driverCallees: the static callees of f and of the helper-like step functions that only f calls (f was split into
+// steps), the steps themselves excluded.
+func (p *Prog) driverCallees(f *ssa.Function) []*ssa.Function {
+	seen := map[*ssa.Function]bool{f: true}
+	var out []*ssa.Function
+	work := []*ssa.Function{f}
+	for len(work) > 0 {
+		g := work[len(work)-1]
+		work = work[:len(work)-1]
+		for _, cal := range p.StaticCallees(g) {
+			if seen[cal] {
+				continue
+			}
+			seen[cal] = true
+			if caller, ok := p.helperLike(cal); ok && caller == g && cal.Signature.Recv() != nil == (g.Signature.Recv() != nil) && p.isStep(cal, f) {
+				work = append(work, cal)
+				continue
+			}
+			out = append(out, cal)
+		}
+	}
+	return out
+}
+
+// isStep: h is a step of driver f — helper-like with f as its only caller and itself calling further in-target
+// functions with error results (a leaf helper is an ordinary callee).
+func (p *Prog) isStep(h, f *ssa.Function) bool {
+	n := 0
+	for _, cal := range p.StaticCallees(h) {
+		r := cal.Signature.Results()
+		if r.Len() > 0 && TypeStr(r.At(r.Len()-1).Type()) == "error" {
+			n++
+		}
+	}
+	return n >= 2
 }
